@@ -78,6 +78,9 @@ func backendProp(b backendSpec, meaning string) propFunc {
 			c.runResolutionSiblings(r, "resolution.siblings", inPkgs("glsl"), nil)
 			r.floor("resolution.siblings", 4)
 		}
+		r.Clauses = append(r.Clauses, argsRoleClause)
+		c.runArgsNameRole(r, "args.namerole", inPkgs(b.Name))
+		r.floor("args.namerole", 5)
 		r.Clauses = append(r.Clauses, typeTextClause)
 		c.runTypeByText(r, "type.bytext", inPkgs(b.Name))
 		r.floor("type.renderedNames", 10)
